@@ -150,6 +150,7 @@ contract(
             lambda k, xs, new_spec_val: len(new_spec_val) == k and is_prefix(new_spec_val, xs),
     },
     serves=["C09"],
+    inline_at_calls=True,      # callers (the round-trip contracts) run the parser's body on their own symbolic value
 )
 
 contract(
